@@ -58,6 +58,11 @@ struct Fn
 			return w * std::log(x / s) - c;
 		if(kind == "gauss")	  // exp(-w*(x-s)^2) - c
 			return std::exp(-w * (x - s) * (x - s)) - c;
+		if(kind == "dexp")	 // exp(-t) - c*exp(-|w|*t), t = x-s (w>0) or s-x (w<0): steep crossing next to s, slow decay
+		{
+			double t = w > 0 ? x - s : s - x;
+			return std::exp(-t) - c * std::exp(-std::fabs(w) * t);
+		}
 		if(kind == "cosx")	 // cos(w*(x-s)) - c : several roots
 			return std::cos(w * (x - s)) - c;
 		throw BadArgs("fn kind " + kind);
